@@ -158,9 +158,10 @@ class Ref:
                         lines.append('\t'.join([chrom, 'HAVANA', 'CDS', str(seg[0] + 1), str(seg[1]), '.', st,
                                                 str(frames[seg]), tattr]))
                     for (s, e) in t['exons']:
-                        lo, hi = (cs, ce + 3) if g['strand'] == 1 else (cs - 3, ce)
-                        if self.has_tag(t['tx_id'], 'mRNA_end_NF'):
-                            lo, hi = cs, ce
+                        # GENCODE convention: the stop codon is not part of the CDS but is part of the
+                        # 3'UTR record (e.g. OR4F5: CDS ..70005, stop_codon 70006-70008, UTR 70006-70008);
+                        # moPepGen takes the first base of the 3'UTR as the end of the ORF.
+                        lo, hi = cs, ce
                         if s < lo:
                             lines.append('\t'.join([chrom, 'HAVANA', 'UTR', str(s + 1), str(min(e, lo)), '.', st, '.', tattr]))
                         if e > hi:
